@@ -404,17 +404,17 @@ CHECKS = {
 import props2  # noqa: E402  (needs the helpers above)
 
 CHECKS.update({
-    "C03": {"fn": props2.check_C03, "engine": True},
+    "C03": {"fn": props2.check_C03, "engine": True, "trace": True},
     "C07": {"fn": props2.check_C07},
-    "C08": {"fn": props2.check_C08, "engine": True},
+    "C08": {"fn": props2.check_C08, "engine": True, "trace": True},
     "C09": {"fn": props2.check_C09, "engine": True},
-    "C10": {"fn": props2.check_C10, "engine": True},
+    "C10": {"fn": props2.check_C10, "engine": True, "trace": True},
     "C11": {"fn": props2.check_C11},
     "C12": {"fn": props2.check_C12},
     "C14": {"fn": props2.check_C14},
     "C15": {"fn": props2.check_C15, "engine": True},
-    "C16": {"fn": props2.check_C16, "engine": True},
-    "C17": {"fn": props2.check_C17, "engine": True},
+    "C16": {"fn": props2.check_C16, "engine": True, "trace": True},
+    "C17": {"fn": props2.check_C17, "engine": True, "trace": True},
     "C18": {"fn": props2.check_C18, "engine": True},
 })
 
